@@ -1,9 +1,9 @@
 #!/bin/bash
-# usage: tools/confirm_seed.sh <ID>  -- independently confirms /tmp/seed-<ID>/patchN.diff in worktree /tmp/wt-<ID>
+# usage: tools/confirm_seed.sh <ID> [round]  -- independently confirms /tmp/seed-<ID>/patchN.diff in worktree /tmp/wt-<ID>
 # and, if confirmed, stores it as /verif/seeded/<ID>-<N>/
 set -u
-ID=$1
-WT=/tmp/wt-$ID; SD=/tmp/seed-$ID
+ID=$1; ROUND=${2:-1}
+if [ "$ROUND" = "2" ]; then WT=/tmp/wt2-$ID; SD=/tmp/seed2-$ID; OFF=2; else WT=/tmp/wt-$ID; SD=/tmp/seed-$ID; OFF=0; fi
 [ -d $WT ] || git -C /repo worktree add -f $WT HEAD >/dev/null 2>&1
 cd $WT && git checkout -q -- . 
 build() { cmake -G Ninja -B $WT/_build -S $WT -DCMAKE_BUILD_TYPE=RelWithDebInfo >/dev/null 2>&1 && cmake --build $WT/_build -j16 2>&1 | tail -3 | grep -iE "error|warning" ; return ${PIPESTATUS[0]}; }
@@ -20,7 +20,7 @@ for n in 1 2; do
   git -C $WT checkout -q -- .
   echo "clean demo exit=$c ; patched suite: $s ; patched demo exit=$p"
   if [ $c -eq 0 ] && [ $p -ne 0 ] && echo "$s" | grep -q "100% tests passed"; then
-     T=/verif/seeded/$ID-$n; rm -rf $T; mkdir -p $T; cp $P $T/patch.diff; cp -r $D $T/demo
+     T=/verif/seeded/$ID-$((n+OFF)); rm -rf $T; mkdir -p $T; cp $P $T/patch.diff; cp -r $D $T/demo; cp $SD/notes.md $T/notes.md 2>/dev/null
      echo "CONFIRMED -> $T"
   else echo "NOT CONFIRMED"; fi
 done
